@@ -278,14 +278,14 @@ class ConnRun:
         self.inject("EnvEof", {}, self.w.eof)
 
     def ev_shortframe(self, n: int = 1):
-        """Noise: a frame that authenticates but is too short to carry the inner header: the helper chokes on it, the
+        """Noise: a frame that authenticates but is too short (0 or 1 byte) to carry even the type: the helper chokes on it, the
         exception escapes data_received and asyncio drops the transport - for the connection a read failure like any other."""
         w = self.w
 
         def fn():
             c, tr = w.codec, w.tr
-            if c is None or not c.noise or tr is None or not tr.can_receive() or not c.nd.handshake_done:
-                return False
+            if n > 1 or c is None or not c.noise or tr is None or not tr.can_receive() or not c.nd.handshake_done:
+                return False  # (2 or 3 bytes of plaintext still carry a type: such a frame is a message of that type)
             fh = getattr(w.conn, "_frame_helper", None)
             if fh is None or getattr(fh, "_state", 0) != 3:  # the client must have completed the handshake as well
                 return False
@@ -597,7 +597,7 @@ def random_schedule(rng: random.Random, cfg: dict, n_events: int, p_fault: float
 
     def fault():
         return rng.choice(
-            [("ev", "force"), ("ev", "disconnect"), ("ev", "eof"), ("ev", "reset"), ("ev", "writefail", True), ("ev", "shortframe", rng.choice((0, 1, 3))),
+            [("ev", "force"), ("ev", "disconnect"), ("ev", "eof"), ("ev", "reset"), ("ev", "writefail", True), ("ev", "shortframe", rng.choice((0, 1))),
              ("ev", "junk", rng.choice(("ProtocolAPIError", "RequiresEncryptionAPIError"))),
              ("ev", "chunk", [rng.choice(CLOSERS)]), ("ev", "start"), ("ev", "finish", cfg["login"]), ("tick",),
              ("ev", "cancel_op", rng.choice(("start", "finish", "disconnect")))]
@@ -685,6 +685,11 @@ CLOSERS_SYS = [
     # no close cause at all: the object is asked to connect a second time (it serves one attempt only)
     [("ev", "start")],
     [("ev", "finish", True)],
+    # a response that completes the pending call and the cause of the close in ONE chunk (the waiter is resolved but
+    # has not resumed yet when the connection is cleaned up)
+    [("ev", "chunk", [{"k": "A", "key": 1}, {"k": "done"}, {"k": "discreq"}])],
+    [("ev", "chunk", [{"k": "done"}, {"k": "garbage"}])],
+    [("ev", "chunk", [{"k": "done"}]), ("ev", "eof")],
     # (Noise only) a frame that authenticates but is too short for its inner header
     [("ev", "shortframe", 1)],
     [("ev", "shortframe", 0)],
